@@ -88,8 +88,8 @@ TopMarks(v) == ToSet(v.mk)
 
 Members(v) == \* immediate member values of a known structural value, as a set
   IF v.st # "k" THEN {}
-  ELSE CASE v.ty.k \in {"list", "set", "tuple"} -> {v.v[i] : i \in 1..Len(v.v)}
-         [] v.ty.k \in {"map", "object"} -> {v.v[n] : n \in DOMAIN v.v}
+  ELSE CASE v.ty.k \in {"list", "set", "tuple"} -> {Elems(v)[i] : i \in 1..Len(Elems(v))}
+         [] v.ty.k \in {"map", "object"} -> {Attrs(v)[n] : n \in DOMAIN Attrs(v)}
          [] OTHER -> {}
 
 RECURSIVE MarksIn(_)
@@ -99,9 +99,9 @@ RECURSIVE UnmarkDeep(_)
 UnmarkDeep(v) ==
   IF v.st # "k" THEN [v EXCEPT !.mk = <<>>]
   ELSE CASE v.ty.k \in {"list", "set", "tuple"} ->
-              [v EXCEPT !.mk = <<>>, !.v = [i \in 1..Len(v.v) |-> UnmarkDeep(v.v[i])]]
+              [v EXCEPT !.mk = <<>>, !.v = [l |-> [i \in 1..Len(Elems(v)) |-> UnmarkDeep(Elems(v)[i])]]]
          [] v.ty.k \in {"map", "object"} ->
-              [v EXCEPT !.mk = <<>>, !.v = [n \in DOMAIN v.v |-> UnmarkDeep(v.v[n])]]
+              [v EXCEPT !.mk = <<>>, !.v = [m |-> [n \in DOMAIN Attrs(v) |-> UnmarkDeep(Attrs(v)[n])]]]
          [] OTHER -> [v EXCEPT !.mk = <<>>]
 
 RECURSIVE WhollyKnown(_)
@@ -115,11 +115,11 @@ RECURSIVE Canon(_)
 Canon(v) ==
   IF v.st # "k" THEN [ty |-> StripOpt(v.ty), st |-> v.st]
   ELSE CASE v.ty.k \in {"list", "tuple"} ->
-              [ty |-> v.ty, st |-> "k", v |-> [i \in 1..Len(v.v) |-> Canon(v.v[i])]]
+              [ty |-> v.ty, st |-> "k", v |-> [l |-> [i \in 1..Len(Elems(v)) |-> Canon(Elems(v)[i])]]]
          [] v.ty.k = "set" ->
-              [ty |-> v.ty, st |-> "k", v |-> {Canon(v.v[i]) : i \in 1..Len(v.v)}]
+              [ty |-> v.ty, st |-> "k", v |-> [z |-> {Canon(Elems(v)[i]) : i \in 1..Len(Elems(v))}]]
          [] v.ty.k \in {"map", "object"} ->
-              [ty |-> v.ty, st |-> "k", v |-> [n \in DOMAIN v.v |-> Canon(v.v[n])]]
+              [ty |-> v.ty, st |-> "k", v |-> [m |-> [n \in DOMAIN Attrs(v) |-> Canon(Attrs(v)[n])]]]
          [] OTHER -> [ty |-> v.ty, st |-> "k", v |-> v.v]
 
 \* abstract equality of two wholly known values (nulls equal iff same type)
@@ -140,8 +140,8 @@ PrefixOf(rf) == IF Has(rf, "prefix") THEN rf.prefix ELSE <<>>
 RfRanked(rf) == (Has(rf, "lo") => HasRank(rf.lo)) /\ (Has(rf, "hi") => HasRank(rf.hi))
 
 \* everything range c admits, range a admits
-LoSub(a, c) == NoLo(a) \/ (~NoLo(c) /\ (NumLT(a.lo, c.lo) \/ (Rank(c.lo) = Rank(a.lo) /\ (a.loInc \/ ~c.loInc))))
-HiSub(a, c) == NoHi(a) \/ (~NoHi(c) /\ (NumLT(c.hi, a.hi) \/ (Rank(c.hi) = Rank(a.hi) /\ (a.hiInc \/ ~c.hiInc))))
+LoSub(a, c) == NoLo(a) \/ (~NoLo(c) /\ (NumLT(a.lo, c.lo) \/ (NumSame(c.lo, a.lo) /\ (a.loInc \/ ~c.loInc))))
+HiSub(a, c) == NoHi(a) \/ (~NoHi(c) /\ (NumLT(c.hi, a.hi) \/ (NumSame(c.hi, a.hi) /\ (a.hiInc \/ ~c.hiInc))))
 NullSub(a, c) == (a.null = "F" => c.null = "F") /\ (a.null = "T" => c.null = "T")
 PrefixSub(a, c) == IsPrefix(PrefixOf(a), PrefixOf(c))
 LenSub(a, c) == MinLen(a) <= MinLen(c) /\ MaxLen(c) <= MaxLen(a)
@@ -149,8 +149,8 @@ LenSub(a, c) == MinLen(a) <= MinLen(c) /\ MaxLen(c) <= MaxLen(a)
 \* length range of a known collection: a set with unknown members may coalesce
 HasUnkMember(v) == \E m \in Members(v) : ~WhollyKnown(m)
 LenLoOf(c) == IF c.ty.k = "set" /\ HasUnkMember(c) THEN 1 ELSE
-              IF c.ty.k = "map" THEN Cardinality(DOMAIN c.v) ELSE Len(c.v)
-LenHiOf(c) == IF c.ty.k = "map" THEN Cardinality(DOMAIN c.v) ELSE Len(c.v)
+              IF c.ty.k = "map" THEN Cardinality(DOMAIN Attrs(c)) ELSE Len(Elems(c))
+LenHiOf(c) == IF c.ty.k = "map" THEN Cardinality(DOMAIN Attrs(c)) ELSE Len(Elems(c))
 
 (***************************************************************************)
 (* Admits(a, c): a is a sound approximation of c.  Marks are not part of   *)
@@ -173,26 +173,28 @@ Admits(a, c) ==
               [] OTHER ->
                    /\ a.rf.null # "T"
                    /\ (c.ty.k = "number" => (InLo(a.rf, c.v) /\ InHi(a.rf, c.v)))
-                   /\ (c.ty.k = "string" => IsPrefix(PrefixOf(a.rf), c.v))
+                   /\ (c.ty.k = "string" => IsPrefix(PrefixOf(a.rf), StrOf(c)))
                    /\ (IsCollT(c.ty) => (MinLen(a.rf) <= LenLoOf(c) /\ LenHiOf(c) <= MaxLen(a.rf)))
     [] OTHER ->   \* a known
          /\ c.st = "k"
          /\ Conforms(c.ty, a.ty)
          /\ a.ty.k = c.ty.k
          /\ CASE a.ty.k \in {"list", "tuple"} ->
-                   /\ Len(a.v) = Len(c.v)
-                   /\ \A i \in 1..Len(a.v) : Admits(a.v[i], c.v[i])
+                   /\ Len(Elems(a)) = Len(Elems(c))
+                   /\ \A i \in 1..Len(Elems(a)) : Admits(Elems(a)[i], Elems(c)[i])
               [] a.ty.k \in {"map", "object"} ->
-                   /\ DOMAIN a.v = DOMAIN c.v
-                   /\ \A n \in DOMAIN a.v : Admits(a.v[n], c.v[n])
+                   /\ DOMAIN Attrs(a) = DOMAIN Attrs(c)
+                   /\ \A n \in DOMAIN Attrs(a) : Admits(Attrs(a)[n], Attrs(c)[n])
               [] a.ty.k = "set" ->
-                   /\ Len(c.v) <= Len(a.v)
-                   /\ \A i \in 1..Len(a.v) : \E j \in 1..Len(c.v) : Admits(a.v[i], c.v[j])
-                   /\ \A j \in 1..Len(c.v) : \E i \in 1..Len(a.v) : Admits(a.v[i], c.v[j])
-                   /\ (Len(a.v) <= 4 =>
-                        \E f \in [1..Len(a.v) -> 1..Len(c.v)] :
-                           /\ {f[i] : i \in 1..Len(a.v)} = 1..Len(c.v)
-                           /\ \A i \in 1..Len(a.v) : Admits(a.v[i], c.v[f[i]]))
+                   LET A == Elems(a) C == Elems(c) IN
+                   /\ Len(C) <= Len(A)
+                   /\ \A i \in 1..Len(A) : \E j \in 1..Len(C) : Admits(A[i], C[j])
+                   /\ \A j \in 1..Len(C) : \E i \in 1..Len(A) : Admits(A[i], C[j])
+                   /\ (Len(A) <= 4 =>
+                        \E f \in [1..Len(A) -> 1..Len(C)] :
+                           /\ {f[i] : i \in 1..Len(A)} = 1..Len(C)
+                           /\ \A i \in 1..Len(A) : Admits(A[i], C[f[i]]))
+              [] a.ty.k = "number" -> IF HasRank(a.v) /\ HasRank(c.v) THEN NumSame(a.v, c.v) ELSE a.v = c.v
               [] OTHER -> a.v = c.v
 
 \* TRUE when deciding Admits(a, c) needs an order the projection lacks.
@@ -209,7 +211,7 @@ Ranked(v) == \A n \in AllNums(v) : HasRank(n)
 (* Well-formedness (C06).  The projection adds, when the hook is on, an    *)
 (* internal view v.in = [gk, md, rk] and, for strings/keys, v.nfc.        *)
 (***************************************************************************)
-NumShape(n) == Has(n, "q") \/ Has(n, "inf") \/ Has(n, "lm") \/ Has(n, "dec")
+NumShape(n) == Has(n, "q") \/ Has(n, "d") \/ Has(n, "inf") \/ Has(n, "lm") \/ Has(n, "dec")
 
 RfWellFormed(ty, rf) ==
   /\ Has(rf, "null") /\ rf.null \in {"U", "F", "T"}
@@ -220,6 +222,10 @@ RfWellFormed(ty, rf) ==
   /\ (Has(rf, "minLen") => rf.minLen >= 0)
   /\ (ty.k = "dynamic" => DOMAIN rf = {"null"} /\ rf.null = "U")
 
+\* a member has exactly the declared type; where the declared type is (or contains) the
+\* dynamic placeholder the member may be more specific only through unknown / null members
+MemberTypeOk(m, t) == TEquals(m.ty, t)
+
 NoDupSeq(s) == \A i, j \in 1..Len(s) : i # j => s[i] # s[j]
 
 RECURSIVE WellFormed(_)
@@ -228,28 +234,33 @@ WellFormed(v) ==
   /\ ~HasOpt(v.ty)
   /\ NoDupSeq(v.mk)
   /\ (Has(v, "in") => v.in.md <= 1)
+  /\ ~Has(v, "bad")
   /\ CASE v.st = "null" -> TRUE
        [] v.st = "unk"  -> RfWellFormed(v.ty, v.rf)
        [] OTHER ->
-           CASE v.ty.k = "bool"   -> v.v \in BOOLEAN
+           CASE v.ty.k = "bool"   -> Has(v.v, "b") /\ v.v.b \in BOOLEAN
              [] v.ty.k = "number" -> NumShape(v.v)
-             [] v.ty.k = "string" -> (Has(v, "nfc") => v.nfc)
+             [] v.ty.k = "string" -> Has(v.v, "s") /\ (Has(v, "nfc") => v.nfc)
              [] v.ty.k = "dynamic" -> FALSE
              [] v.ty.k = "capsule" -> TRUE
              [] v.ty.k \in {"list", "set"} ->
-                  /\ \A i \in 1..Len(v.v) : TEquals(v.v[i].ty, v.ty.e) /\ WellFormed(v.v[i])
+                  /\ Has(v.v, "l")
+                  /\ \A i \in 1..Len(Elems(v)) : MemberTypeOk(Elems(v)[i], v.ty.e) /\ WellFormed(Elems(v)[i])
                   /\ (v.ty.k = "set" =>
-                        /\ \A i \in 1..Len(v.v) : MarksIn(v.v[i]) = {}
-                        /\ \A i, j \in 1..Len(v.v) :
-                             (i < j /\ WhollyKnown(v.v[i]) /\ WhollyKnown(v.v[j])) => ~AbsEq(v.v[i], v.v[j]))
+                        /\ \A i \in 1..Len(Elems(v)) : MarksIn(Elems(v)[i]) = {}
+                        /\ \A i, j \in 1..Len(Elems(v)) :
+                             (i < j /\ WhollyKnown(Elems(v)[i]) /\ WhollyKnown(Elems(v)[j])) => ~AbsEq(Elems(v)[i], Elems(v)[j]))
              [] v.ty.k = "map" ->
-                  /\ \A n \in DOMAIN v.v : TEquals(v.v[n].ty, v.ty.e) /\ WellFormed(v.v[n])
+                  /\ Has(v.v, "m")
+                  /\ \A n \in DOMAIN Attrs(v) : MemberTypeOk(Attrs(v)[n], v.ty.e) /\ WellFormed(Attrs(v)[n])
                   /\ (Has(v, "nfc") => v.nfc)
              [] v.ty.k = "tuple" ->
-                  /\ Len(v.v) = Len(v.ty.es)
-                  /\ \A i \in 1..Len(v.v) : TEquals(v.v[i].ty, v.ty.es[i]) /\ WellFormed(v.v[i])
+                  /\ Has(v.v, "l")
+                  /\ Len(Elems(v)) = Len(v.ty.es)
+                  /\ \A i \in 1..Len(Elems(v)) : MemberTypeOk(Elems(v)[i], v.ty.es[i]) /\ WellFormed(Elems(v)[i])
              [] v.ty.k = "object" ->
-                  /\ DOMAIN v.v = DOMAIN v.ty.as
-                  /\ \A n \in DOMAIN v.v : TEquals(v.v[n].ty, v.ty.as[n]) /\ WellFormed(v.v[n])
+                  /\ Has(v.v, "m")
+                  /\ DOMAIN Attrs(v) = DOMAIN v.ty.as
+                  /\ \A n \in DOMAIN Attrs(v) : MemberTypeOk(Attrs(v)[n], v.ty.as[n]) /\ WellFormed(Attrs(v)[n])
                   /\ (Has(v, "nfc") => v.nfc)
 =============================================================================
